@@ -2,7 +2,7 @@
    usage: driver <domain> < cases > traces
    The text formats are described in DESIGN.md appendix B and in harness/*.cpp,
    which parse the very same files. *)
-open Models
+open Cl_model
 
 let rec nat_of_int i = if i <= 0 then O else S (nat_of_int (i - 1))
 let rec int_of_nat = function O -> 0 | S n -> 1 + int_of_nat n
